@@ -1,7 +1,7 @@
 (* C06 — truncated or mistyped input is rejected, never decoded into made-up data. Statements only. *)
 From Coq Require Import List NArith ZArith.
 From TarsV Require Import Base.Hex Codec.Wire Codec.Skip Codec.Prim Codec.PrimProofs Codec.GenCodec Codec.Corr Codec.GenProofs
-  Codec.RoundTrip Codec.RoundTripProofs Codec.PrefixProofs Codec.RoundTripExamples Gen.Schemas.
+  Codec.RoundTrip Codec.RoundTripProofs Codec.PrefixProofs Codec.PrefixGenProofs Codec.RoundTripExamples Gen.Schemas.
 Import ListNotations.
 Open Scope N_scope.
 
@@ -74,18 +74,76 @@ Theorem C06_inadmissible_rejected : forall e k n sid fds1 fd fds2 vs1 ty r,
   decode e sid (enc_fields e vs1 fds1 ++ head ty (ftag fd) ++ r) = DErr.
 Proof. exact PrefixProofs.inadmissible_rejected. Qed.
 
-(* full statement of the prefix clause for ALL struct types (members of container and struct types included),
-   kept visible; proved above for flat structs, decided on every run by the correspondence + monitors on every
-   generated struct type (all prefixes of small encodings, sampled prefixes, every embedded length inflated) *)
-Definition C06_prefix_statement : Prop :=
-  forall (e : env) (k : nat) (sid : nat) (vs : list val) (p q : list N),
-  wf_schema k e -> has_type e (TStruct sid) (VStruct vs) -> encode e sid (VStruct vs) = p ++ q -> q <> [] ->
-  match decode e sid p with
-  | DErr | DHuge => True
-  | DOk v r => exists i ps, v = VStruct (firstn i (norm_fields e vs (fields_of e sid)) ++ skipn i ps) /\
-                            Forall2 (fun fd p => prior_ok e (fty fd) (fdef fd) p) (fields_of e sid) ps
-  | _ => False
-  end.
+(* THE PREFIX CLAUSE AT STRUCT LEVEL FOR ALL MEMBER TYPES: every wf_schema environment, every struct type with a
+   finite type graph (members of string, byte-vector, vector, fixed-array, map and nested struct types included),
+   every well-typed value, EVERY prefix p of its encoding: decoding p fails - with an error, or because a list
+   count exceeds the bytes left (DHuge; the implementation then fails after allocating, see C05) - or succeeds
+   with exactly the first i members, whose encodings are completely contained in p (p is their encoding,
+   possibly followed by the lone first byte of a two-byte head), all later members being optional and holding
+   admissible reset values (declared default, else zero), and nothing left unread. A cut inside a string, byte
+   vector, list, map or nested struct therefore always fails: no partial strings, no zero-filled buffers, no
+   shortened containers. *)
+Theorem C06_prefix_general : forall e k n sid vs p q,
+  wf_schema k e -> (S k <= 64)%nat -> tfin n e (TStruct sid) = true -> (tneed n e (TStruct sid) + k <= 64)%nat ->
+  has_type e (TStruct sid) (VStruct vs) -> encode e sid (VStruct vs) = p ++ q ->
+  bad (decode e sid p) \/
+  exists i h ps, (i <= length (fields_of e sid))%nat /\
+    p = enc_fields e (firstn i vs) (firstn i (fields_of e sid)) ++ h /\ (h = [] \/ halfhead h) /\
+    optional (skipn i (fields_of e sid)) /\
+    Forall2 (fun fd pr => prior_ok e (fty fd) (fdef fd) pr) (fields_of e sid) ps /\
+    decode e sid p = DOk (VStruct (firstn i (norm_fields e vs (fields_of e sid)) ++ skipn i ps)) [].
+Proof. exact PrefixGenProofs.prefix_general. Qed.
+Theorem C06_code_schemas_prefix_general : forall sid vs p q, tfin 8 env0 (TStruct sid) = true ->
+  has_type env0 (TStruct sid) (VStruct vs) -> encode env0 sid (VStruct vs) = p ++ q ->
+  bad (decode env0 sid p) \/
+  exists i h ps, (i <= length (fields_of env0 sid))%nat /\
+    p = enc_fields env0 (firstn i vs) (firstn i (fields_of env0 sid)) ++ h /\ (h = [] \/ halfhead h) /\
+    optional (skipn i (fields_of env0 sid)) /\
+    Forall2 (fun fd pr => prior_ok env0 (fty fd) (fdef fd) pr) (fields_of env0 sid) ps /\
+    decode env0 sid p = DOk (VStruct (firstn i (norm_fields env0 vs (fields_of env0 sid)) ++ skipn i ps)) [].
+Proof. exact RoundTripExamples.env0_prefix_general. Qed.
+(* member level, every type: a proper prefix of a member's encoding is an error (or, optional member and nothing /
+   the lone first head byte present: the member is absent) *)
+Theorem C06_member_prefix : forall e k, wf_schema k e -> forall f m t tag req d v prior p q,
+  tfin m e t = true -> has_type e t v -> ty_nest k e t = true -> tag < 256 ->
+  (d <> None -> scalar_ty t = true) -> prior_ok e t d prior ->
+  enc_var e tag req t d v = p ++ q -> q <> [] -> (tneed m e t + k + 4 * length p + 3 <= f)%nat ->
+  bad (dec_var f e tag req t prior p) \/
+  (req = false /\ (p = [] \/ halfhead p) /\ exists x, dec_var f e tag req t prior p = DOk x [] /\ prior_ok e t d x).
+Proof. exact (fun e k Hwf f => proj1 (PrefixGenProofs.w_all e k Hwf f)). Qed.
+
+(* EMBEDDED LENGTHS that announce more than remains, member level, behind any unknown fields, whatever the rest of
+   the input is: a string length (1-byte and 4-byte form) -> error; a byte-vector (SimpleList) count -> error;
+   a LIST count -> refused before any element is decoded (DHuge: the generated code allocates first, C05) *)
+Theorem C06_inflated_string_member : forall e f tag req prior lo J (four : bool) l r,
+  junk_ok lo tag J -> tag < 256 -> N.of_nat (length r) < l -> l < (if four then 4294967296 else 256) ->
+  let field := (if four then head tSTR4 tag ++ be 4 l else head tSTR1 tag ++ [l]) ++ r in
+  (2 * length (ser_fields J ++ field) + 3 <= f)%nat ->
+  dec_var (S f) e tag req TStr prior (ser_fields J ++ field) = DErr.
+Proof. exact PrefixProofs.inflated_string_member. Qed.
+Theorem C06_inflated_bytes_member : forall e f tag req x prior lo J n r,
+  junk_ok lo tag J -> tag < 256 -> is_byte x = true -> (length r < n)%nat -> N.of_nat n < 2147483648 ->
+  let field := head tSIMPLE tag ++ head tBYTE 0 ++ w_int32 (Z.of_nat n) 0 ++ r in
+  (2 * length (ser_fields J ++ field) + 3 <= f)%nat ->
+  dec_var (S f) e tag req (TVec x) prior (ser_fields J ++ field) = DErr.
+Proof. exact PrefixProofs.inflated_bytes_member. Qed.
+Theorem C06_inflated_list_member : forall e f tag req x prior lo J n r,
+  junk_ok lo tag J -> tag < 256 -> (length r < n)%nat -> N.of_nat n < 2147483648 ->
+  let field := head tLIST tag ++ w_int32 (Z.of_nat n) 0 ++ r in
+  (2 * length (ser_fields J ++ field) + 3 <= f)%nat ->
+  dec_var (S f) e tag req (TVec x) prior (ser_fields J ++ field) = DHuge.
+Proof. exact PrefixProofs.inflated_list_member. Qed.
+(* struct level: the members before it encoded normally, then a string member announcing more than is left *)
+Theorem C06_inflated_string_rejected : forall e k n sid fds1 fd fds2 vs1 (four : bool) l r,
+  wf_schema k e -> (S k <= 64)%nat -> fields_of e sid = fds1 ++ fd :: fds2 -> fty fd = TStr ->
+  Forall2 (fun fd x => has_type e (fty fd) x) fds1 vs1 ->
+  N.of_nat (length r) < l -> l < (if four then 4294967296 else 256) ->
+  tfin n e (TStruct sid) = true -> (tneed n e (TStruct sid) + k <= 64)%nat ->
+  decode e sid (enc_fields e vs1 fds1 ++ (if four then head tSTR4 (ftag fd) ++ be 4 l else head tSTR1 (ftag fd) ++ [l]) ++ r) = DErr.
+Proof. exact PrefixProofs.inflated_string_rejected. Qed.
+(* inflation of a length or count nested deeper inside a valid encoding (inside vector elements, map values, nested
+   structs) is not stated as a theorem; it is decided on every run by the correspondence + monitors (every string
+   length and every list/map/simple-list count of every sampled encoding inflated) *)
 
 Print Assumptions C06_fixed_width_exact. Print Assumptions C06_fixed_width_truncated.
 Print Assumptions C06_string_exact. Print Assumptions C06_string_truncated.
@@ -94,5 +152,12 @@ Print Assumptions C06_scalar_prefix.
 Print Assumptions C06_prefix_flat.
 Print Assumptions C06_code_schemas_prefix_flat.
 Print Assumptions C06_code_schemas_flat_types.
+Print Assumptions C06_prefix_general.
+Print Assumptions C06_code_schemas_prefix_general.
+Print Assumptions C06_member_prefix.
+Print Assumptions C06_inflated_string_member.
+Print Assumptions C06_inflated_bytes_member.
+Print Assumptions C06_inflated_list_member.
+Print Assumptions C06_inflated_string_rejected.
 Print Assumptions C06_inadmissible_member.
 Print Assumptions C06_inadmissible_rejected.
